@@ -154,7 +154,16 @@ def run(sid, props):
         sys.exit("/repo is not clean:\n" + out)
     rc, out = sh(f"git apply {os.path.join(dst, 'patch.diff')}", cwd=REPO)
     if rc:
-        sys.exit("patch does not apply to /repo: " + out)
+        # the code around the change has moved since the change was written (later fix: commits):
+        # merge it in; a change whose own lines were rewritten does not apply any more
+        rc, out = sh(f"git apply --3way {os.path.join(dst, 'patch.diff')}", cwd=REPO)
+        conflicted = sh("git diff --name-only --diff-filter=U", cwd=REPO)[1].strip()
+        sh("git reset -q", cwd=REPO)
+        if rc or conflicted:
+            sh("git checkout -- .", cwd=REPO)
+            meta["stale_at"] = sh("git rev-parse --short HEAD", cwd=REPO)[1].strip()
+            json.dump(meta, open(os.path.join(dst, "meta.json"), "w"), indent=1)
+            sys.exit("patch does not apply to /repo at this head (recorded in meta.json as stale_at): " + out[-300:])
     try:
         for p in props:
             t0 = time.time()
